@@ -65,6 +65,9 @@ pub fn scenarios(tier: &str) -> Vec<Scenario> {
         m_block("B(set0=1,set1=1,wide=5)", vec![s_set(0, 0, 1), s_set(1, 1, 1), s_setwide(2, 5)]),
         m_block("B(create, S by inscription id: set2=7)", vec![s_call(1, vec![2]), s_by_insc(2, crate::asm::s_set(2, 7, 1, [7, 0, 0, 0]))]),
         m_block("B(die)", vec![s_call(1, vec![3])]),
+        // the same deployer nonce used for different code on different branches: one address, two contracts
+        m_block("B(p4 deploys a copy of S, called)", vec![TxSpec::Deploy { pk: 4, code: crate::asm::s_initcode(), len: DEFAULT_LEN }, TxSpec::Call { pk: 1, tgt: Tgt::Created { pk: 4, nonce: 0 }, data: crate::asm::s_set(0, 3, 1, [3, 0, 0, 0]), len: DEFAULT_LEN }]),
+        m_block("B(p4 deploys the context probe, called)", vec![TxSpec::Deploy { pk: 4, code: crate::asm::ctx_initcode(), len: DEFAULT_LEN }, TxSpec::Call { pk: 1, tgt: Tgt::Created { pk: 4, nonce: 0 }, data: vec![0], len: DEFAULT_LEN }]),
         m_block("B(deposit)", vec![TxSpec::Deposit { pk: 1, ticker: "ordi".into(), amount: "0x5".into() }]),
         m_block("B(T(s0,n1))", vec![TxSpec::Transact { signer: 0, nonce: 1, tgt: Tgt::s(), data: crate::asm::s_set(1, 3, 0, [0; 4]), len: DEFAULT_LEN }]),
         m_block("B(T(s0,n0))", vec![TxSpec::Transact { signer: 0, nonce: 0, tgt: Tgt::s(), data: crate::asm::s_set(1, 4, 0, [0; 4]), len: DEFAULT_LEN }]),
